@@ -560,6 +560,10 @@ func oracle(ops, outs []string) *corr.Violation {
 			if u != dsp {
 				return mk("event-differs-from-state", fmt.Sprintf("op %d %q: provider credited %d, event says %d", i, op, dsp, u))
 			}
+			if dsp > value && dsp-value > 1024 {
+				// float64(value) is at most half an ulp (<= 1024 below 2^64) above value: anything more is not the rounding defect
+				return mk("service-charge-far-exceeds-value", fmt.Sprintf("op %d %q (ratio %v): provider credited %d, value %d", i, op, s.ratio, dsp, value))
+			}
 			if dsp > value {
 				return mk("service-charge-exceeds-value", fmt.Sprintf("op %d %q (ratio %v): the provider alone is credited %d > value %d; total credited %s", i, op, s.ratio, dsp, value, sum))
 			}
